@@ -36,7 +36,18 @@ if src is not None:
   for f in ("patch.diff", "demo_test.go", "notes.md"):
       if os.path.exists(src + "/" + f):
           shutil.copy(src + "/" + f, dst + "/" + f)
-rc, _ = sh("git apply %s/patch.diff" % dst, "/repo"); assert rc == 0, "does not apply to /repo"
+rc, o = sh("git status --porcelain", "/repo"); assert o.strip() == "", "/repo is not clean"
+rc, _ = sh("git apply %s/patch.diff" % dst, "/repo")
+if rc != 0:
+    # recorded against an earlier commit of /repo (fix: commits came later): merge it
+    rc, o = sh("git apply --3way %s/patch.diff" % dst, "/repo")
+    if rc != 0 or "conflict" in o.lower():
+        sh("git reset -q --hard HEAD", "/repo")
+        sys.exit("does not apply to /repo any more (not even with --3way): rebase the seed")
+    rcb, ob = sh("go build . ./cmd/...", "/repo")
+    if rcb != 0:
+        sh("git reset -q --hard HEAD", "/repo")
+        sys.exit("the merged change does not build: rebase the seed\n" + ob[-500:])
 results = {}
 try:
     for c in checks:
@@ -51,7 +62,7 @@ try:
         results[c] = {"detected": det, "kind": kind, "wall_s": round(time.time() - t0), "tail": lines[-3:]}
         print(c, kind, round(time.time() - t0), "s")
 finally:
-    sh("git checkout -- .", "/repo")
+    sh("git reset -q --hard HEAD", "/repo")
 notes = open(dst + "/notes.md").read() if os.path.exists(dst + "/notes.md") else ""
 meta_path = dst + "/meta.json"
 meta = json.load(open(meta_path)) if os.path.exists(meta_path) else {}
